@@ -123,22 +123,22 @@ Print Assumptions C02_pool_reset_matters_other_fields.
 
 (* non-vacuity *)
 Example C02_ex_stream_ignored_body :
-  serve wit_cfg [mkReq 1 58 false false false (FFixed 10000) None None 0 false RNone FinNone O None;
-                 mkReq 2 29 true false false FNone None None 0 false RNone FinNone O None] 0
+  serve wit_cfg [mkReq 1 58 false false false (FFixed 10000) None None 0 false RNone FinNone 0 true O None;
+                 mkReq 2 29 true false false FNone None None 0 false RNone FinNone 0 true O None] 0
   = [EParse 0; EDispatch 1 0 RcOk; EResp 200 false; EParse 10058; EDispatch 2 0 RcOk; EResp 200 false; EClose].
 Proof. vm_compute. reflexivity. Qed.
 Example C02_ex_too_big_closes :
-  serve wit_cfg [mkReq 1 58 false false false (FFixed 40002) None None 0 false (RUpTo 100) FinNone O None;
-                 mkReq 2 29 true false false FNone None None 0 false RNone FinNone O None] 0
+  serve wit_cfg [mkReq 1 58 false false false (FFixed 40002) None None 0 false (RUpTo 100) FinNone 0 true O None;
+                 mkReq 2 29 true false false FNone None None 0 false RNone FinNone 0 true O None] 0
   = [EParse 0; EDispatch 1 100 RcOk; EResp 200 true; EClose].
 Proof. vm_compute. reflexivity. Qed.
 Example C02_ex_rejected :
   serve (mkCfg true 20000 false true false true false)
-        [mkReq 1 80 false false true (FFixed 64) None None 0 false RNone FinNone O None;
-         mkReq 2 29 true false false FNone None None 0 false RNone FinNone O None] 0
+        [mkReq 1 80 false false true (FFixed 64) None None 0 false RNone FinNone 0 true O None;
+         mkReq 2 29 true false false FNone None None 0 false RNone FinNone 0 true O None] 0
   = [EParse 0; EResp 417 true; EClose].
 Proof. vm_compute. reflexivity. Qed.
 Example C02_ex_judge_rejects_smuggling :
-  judge wit_cfg [wit_detach; mkReq 2 29 true false false FNone None None 0 false RNone FinNone O None]
+  judge wit_cfg [wit_detach; mkReq 2 29 true false false FNone None None 0 false RNone FinNone 0 true O None]
         [EDispatch 1 0 RcOk; EResp 200 false; EDispatch 1000256 0 RcOk; EResp 200 false] = false.
 Proof. vm_compute. reflexivity. Qed.
